@@ -34,11 +34,27 @@ class FakeProc(object):
         self.addr = args[-1]
         self.conn = None
         self.got_close = False
+        self.terminated = False
+        self.dead = False          # crashed / killed from outside: the connection is broken from now on
+
+    def terminate(self):
+        self.terminated = True
+
+    kill = terminate
+
+    def poll(self):
+        return 0 if self.ended else None
+
+    def wait(self, timeout=None):
+        return 0
+
+    def die(self):
+        self.dead = True
 
     @property
     def ended(self):
         """the real server leaves its loop on a close request or when the client end is closed"""
-        return self.got_close or (self.conn is not None and self.conn.closed)
+        return self.got_close or self.terminated or self.dead or (self.conn is not None and self.conn.closed)
 
 
 class FakeConn(object):
@@ -51,6 +67,8 @@ class FakeConn(object):
     def send_bytes(self, b):
         if self.closed:
             raise OSError('handle is closed')
+        if self.proc.dead:
+            raise BrokenPipeError('server gone')
         req = loads(b)
         if req[0] == 'close':
             self.proc.got_close = True
@@ -62,11 +80,12 @@ class FakeConn(object):
     def recv_bytes(self):
         if self.closed:
             raise OSError('handle is closed')
-        if not self.q:
+        if self.proc.dead or not self.q:
             raise EOFError('no reply pending')
+        # like the real server: requests are answered in the order they arrive, whoever reads
         req = self.q.popleft()
         self.serial += 1
-        return dumps((['reply', req[0], self.serial], True))
+        return dumps((['reply', req[0], req[1][0]], True))
 
     def close(self):
         self.closed = True
@@ -127,6 +146,8 @@ SCENARIOS = collections.OrderedDict([
     ('connect-retry: prepare;close',    dict(prog=['prepare', 'close'], client_fail=1)),
     ('3 threads: prepare;call || call || call', dict(prog=[('par', [['prepare', 'call'], ['call'], ['call']])], three=True)),
     ('3 threads: prepare || call || close', dict(prog=[('par', [['prepare'], ['prepare', 'call'], ['close']])], three=True, close_vs_call=True)),
+    ('server-dies: call;die;close;call;close', dict(prog=['call', 'die', 'close', 'call', 'close'])),
+    ('server-dies: prepare;call;die;close;prepare;call;close', dict(prog=['prepare', 'call', 'die', 'close', 'prepare', 'call', 'close'])),
     ('launch-failure: call',            dict(prog=['call'], client_fail='always')),
     ('launch-failure: prepare;call',    dict(prog=['prepare', 'call'], client_fail='always')),
     ('launch-failure: prepare || call', dict(prog=[('par', [['prepare'], ['call']])], client_fail='always')),
@@ -152,6 +173,8 @@ def expected_launches(prog):
         if st == 'close':
             n += used
             used = False
+        elif st == 'die':
+            pass
         else:
             ops = list(flat_ops([st]))
             if 'prepare' in ops or 'call' in ops:
@@ -375,13 +398,19 @@ def run_scenario(name, ch, stateful=False):
                 elif st == 'close':
                     env.close()
                     results.append((who, 'close', 'ok'))
+                elif st == 'die':
+                    world.procs[-1].die()        # the server process crashes / is killed from outside
                 else:
+                    tag = 'call-of-%s-%d' % (who or 'main', len(results))
                     try:
-                        r = getattr(env, CALL[0])(*CALL[1])
+                        r = getattr(env, CALL[0])(tag, *CALL[1][1:])
                     except Exception as e:
                         results.append((who, 'call', 'exc', type(e).__name__, str(e)[:60]))
                         raise
-                    results.append((who, 'call', 'reply' if (isinstance(r, list) and r[:2] == ['reply', 'assist']) else repr(r)))
+                    if isinstance(r, list) and r[:2] == ['reply', 'assist']:
+                        results.append((who, 'call', 'reply' if r[2] == tag else 'reply-to-another-call'))
+                    else:
+                        results.append((who, 'call', repr(r)))
 
         s.spawn(lambda: do(sc['prog'], ''), 'driver')
         s.run()
@@ -425,13 +454,20 @@ def observe(name, sc, s, world, results, env):
             for tn, en, fn, msg in excs:
                 if not (en == 'Exception' and 'launching timeout' in msg):
                     bad.append(('thread-exception:%s:%s' % (en, fn), '%s in %s thread: %s' % (en, tn, msg)))
+            live = [p for p in world.procs if not p.ended]
+            if live:
+                bad.append(('server-abandoned-after-failed-start', '%d of %d launched processes were given up on (connect timeout) but never ended: '
+                            'they come up later and wait for a client for ever' % (len(live), len(world.procs))))
         else:
             for tn, en, fn, msg in excs:
                 if sc.get('close_vs_call') and en in ('OSError', 'EOFError', 'BrokenPipeError', 'AttributeError') and fn in ('_call', 'close'):
                     continue
                 bad.append(('thread-exception:%s:%s' % (en, fn), '%s in %s thread: %s' % (en, tn, msg)))
             if not excs:
-                if replies != ncalls:
+                swapped = [r for r in results if r[1] == 'call' and r[2] == 'reply-to-another-call']
+                if swapped:
+                    bad.append(('call-answered-with-another-reply', '%d of %d calls got the reply to another thread\'s request: %r' % (len(swapped), ncalls, results)))
+                elif replies != ncalls:
                     bad.append(('call-unanswered', '%d calls, %d replies: %r' % (ncalls, replies, results)))
                 exp = expected_launches(sc['prog'])
                 close_in_par = any(isinstance(st, tuple) and 'close' in flat_ops([st]) for st in sc['prog'])
